@@ -215,7 +215,7 @@ pub fn run(tier: &str) -> Result<Report, String> {
         crate::sem::note_network(&mut rep, b);
         let ctx = NetCtx::new(b.clone(), Labels::default(), "none");
         let w = Witnesses::new(b)?;
-        let mut g = Gen::new(Alphabet::plain(ctx.nprops(), 3));
+        let mut g = Gen::new(Alphabet::all_ops(ctx.nprops(), 3));
         let mut fs = g.closed_up_to(m);
         fs.extend(templates(&ctx.user, false, pool));
         let bad: Vec<Violation> = fs
@@ -239,7 +239,7 @@ pub fn run(tier: &str) -> Result<Report, String> {
     // multi-colour networks of the all-2-variable family (one per colour-count bucket; thorough: 6)
     let (all2, info) = all2_nets(3, Some(if tier == "quick" { 1 } else { 6 }))?;
     rep.set("all_2_variable_networks", info);
-    let mut g2 = Gen::new(Alphabet::plain(2, 3));
+    let mut g2 = Gen::new(Alphabet::all_ops(2, 3));
     let fs2 = g2.closed_up_to(3);
     for b in all2.iter().filter(|b| b.cols.len() > 1 && b.cols.len() <= 64) {
         crate::sem::note_network_light(&mut rep, b);
